@@ -132,7 +132,11 @@ Definition type_matches (n : node) (rs : list rule) : bool :=
   | None => true
   | Some s =>
     if is_user_type_name s then
-      match user_type_kind s with Some k => nkind_eqb k (n_kind n) | None => false end
+      (* since fix d925ea9 a null example fits a nullable reference *)
+      match user_type_kind s with
+      | Some k => nkind_eqb k (n_kind n) || (flag_true "nullable" rs && nkind_eqb (n_kind n) NNull)
+      | None => false
+      end
     else if s =? "any" then true
     else if s =? "enum" then has_rule "enum" rs
     else if s =? "mixed" then has_rule "or" rs
@@ -157,7 +161,7 @@ Definition example_obeys (n : node) (rs : list rule) : bool :=
   && (negb (has_rule "enum" rs) || n_in_enum n || is_null)
   && match get_nat "minItems" rs with Some v => Nat.leb v (n_children n) | None => true end
   && match get_nat "maxItems" rs with Some v => Nat.leb (n_children n) v | None => true end
-  && match find_rule "or" rs with Some (VOrList _ _ a) => a | _ => true end.
+  && match find_rule "or" rs with Some (VOrList _ _ a) => a || is_null | _ => true end.
 
 Definition spec_ok (n : node) (rs : list rule) : bool :=
   all_known rs
